@@ -31,7 +31,7 @@ ASSUMPTIONS = ["a cached pipeline and its uncached twin are rebuilt from the sam
                "the documented key model (key = output name + values of the ROOT arguments) is used only to CLASSIFY a mismatch as the known cache-key design finding; the verdict comes from the uncached twin",
                "HybridCache durations are virtual (time.perf_counter/monotonic patched to +1.0 per read inside pipefunc modules)",
                "disk caches get a private directory (the default, the system temp dir, is shared between unrelated pipelines)"]
-BUDGET = {"quick": 160.0, "thorough": 1800.0}
+BUDGET = {"quick": 240.0, "thorough": 1800.0}
 
 
 # ------------------------------------------------------------------------------------------------
